@@ -168,7 +168,9 @@ def gen_scenario(rng, name, p_async=0.25, p_fwd=0.3, p_typeerror=0.08):
     if want_fwd:
         cid = len(cbs)
         sig = random_sig(rng, max_params=3, p_reserved=0.3)
-        sig = [list(p) for p in sig if p[1] != "vk"] + [["kwargs" if all(p[0] != "kwargs" for p in sig) else "kw", "vk", False]]
+        sig = [list(p) for p in sig if p[1] != "vk"]
+        vkn = [n for n in ("kwargs", "kw", "rest") if all(p[0] != n for p in sig)][0]
+        sig.append([vkn, "vk", False])
         cbs.append(dict(id=cid, form="func", at=["t", "go", rng.choice(["before", "on", "after"])], sig=sig,
                         is_async=False, name=f"c{cid}"))
         fwd = dict(cb=cid, args=list(arg_tokens(rng.randint(0, 2))), kw=[])
@@ -184,7 +186,9 @@ def gen_scenario(rng, name, p_async=0.25, p_fwd=0.3, p_typeerror=0.08):
         rng.shuffle(cand)
         k = rng.randint(0, min(5, len(cand)))
         kw = [[nm, 500 + NAME_ID[nm] if nm in RESERVED else kw_token(nm)] for nm in cand[:k]]
-        sends.append(dict(event=ev, args=list(arg_tokens(na)), kw=kw))
+        # `sm.send(event, …)` cannot take a keyword called `event` (Python itself rejects it): use the event method
+        style = "method" if any(k == "event" for k, _ in kw) or rng.random() < 0.4 else "send"
+        sends.append(dict(event=ev, args=list(arg_tokens(na)), kw=kw, style=style))
     if fwd:
         nm = rng.choice(UNKNOWN)
         fwd["kw"] = [[nm, 600 + NAME_ID[nm]]] if all(nm != k for k, _ in sends[0]["kw"]) and rng.random() < 0.5 else []
@@ -303,7 +307,11 @@ class Recorder:
         if f and f["cb"] == cid and not self.fwd_done:
             self.fwd_done = True
             kwargs = [v for (n, v), p in zip(rec, self.scn["cbs"][cid]["sig"]) if p[1] == "vk"][0]
-            sm.send("nxt", *f["args"], **kwargs, **dict((k, v) for k, v in f["kw"]))
+            allkw = {**kwargs, **dict((k, v) for k, v in f["kw"])}
+            if "event" in allkw:
+                sm.nxt(*f["args"], **allkw)
+            else:
+                sm.send("nxt", *f["args"], **allkw)
         return True
 
     def _probe(self, v):
@@ -370,7 +378,7 @@ def render(scn):
         elif f == "deco":
             a = cb["at"]
             deco = f"@{a[1]}.{a[2]}"
-            cls.append(("DECO", _def(cb, first="self", indent="    ", deco="    " + deco)))
+            cls.append(("DECO", _def(cb, first="self", indent="    ", deco=deco)))
         elif f == "twin":
             if cb["id"] in twins_done:
                 continue
@@ -421,10 +429,16 @@ def run_impl(scn):
     exec(src, ns)  # noqa: S102
     sm = ns["M"](ns["MODEL"], listeners=ns["LISTENERS"])
     rec.sm = sm
+    # a property used as guard is read once when the machine resolves it; nothing else runs before the first send
+    del rec.log[:]
+    del rec.tk[:]
     errors = []
     for s in scn["sends"]:
         try:
-            sm.send(s["event"], *s["args"], **{k: v for k, v in s["kw"]})
+            if s.get("style") == "method":
+                getattr(sm, s["event"])(*s["args"], **{k: v for k, v in s["kw"]})
+            else:
+                sm.send(s["event"], *s["args"], **{k: v for k, v in s["kw"]})
             errors.append(None)
         except TypeError:
             errors.append("TypeError")
